@@ -35,7 +35,7 @@ def run(ctx):
         total += int(s.get("cases", 0))
         ctx.part("replay_" + d, configurations=s.get("cases"), executions=s.get("evaluations"))
     # functions for the types arbitrary JSON decodes into, applied to values behind `any`
-    r = ctx.tlc("MC_AnyFuncs", capture_lines=False, consts={"Kinds": {"bool", "string", "float64", "map", "slice", "other"}, "MaxFuncs": 3 if ctx.quick else 4, "EmitCases": True},
+    r = ctx.tlc("MC_AnyFuncs", capture_lines=False, consts={"Kinds": {"bool", "string", "float64", "map", "slice", "int", "int64", "strings", "other"}, "MaxFuncs": 3 if ctx.quick else 4, "EmitCases": True},
                 invariants=("Law", "EmitInv"))
     s = ctx.replay_cases("anyf", r.out)
     total += int(s.get("cases", 0))
